@@ -1,6 +1,6 @@
 (* C19: the statements of Properties/C19.v, about the model, in the words of the property. *)
 From NDN Require Import Base.Prelude Model.TlvVar Model.Name Model.SegFetch Spec.SegFetchSpec.
-From NDN Require Import Proofs.SegFetchBasics Proofs.SegFetchRefine Proofs.SegFetchHeadline.
+From NDN Require Import Proofs.SegFetchBasics Proofs.SegFetchRefine Proofs.SegFetchHeadline Proofs.SegFetchAsks.
 Local Open Scope nat_scope.
 
 Definition fetch (fuel : nat) (cfg : config) (S : scenario) : list bytes * ending :=
@@ -111,6 +111,64 @@ Proof.
     intros t Ht. split; [apply (HT' (KSeg t)); lia | apply HU; lia].
 Qed.
 
+(* ---- the Interests the producer sees ------------------------------------------------------------ *)
+
+Definition interests (fuel : nat) (cfg : config) (S : scenario) : list request :=
+  asked (fst (segment_fetcher fuel cfg (oracle_of S) (prefix S))).
+
+Theorem fetch_asks S cfg fuel :
+  wf_scenario S -> nseg (obj S) < fuel -> interests fuel cfg S = expected_asks S cfg.
+Proof. intros HW Hf. exact (seg_fetch_asks S cfg (proj1 HW) HW fuel Hf). Qed.
+
+Lemma walk_asks_complete S cfg : forall len i,
+  1 <= len ->
+  (forall t, i <= t < i + len -> result_of S (retry_times cfg) (KSeg t) = KAnswered) ->
+  (forall t, i <= t < i + len - 1 -> is_final (obj S) t = false) ->
+  is_final (obj S) (i + len - 1) = true ->
+  walk_asks S cfg i len = flat_map (fun t => asks_for S cfg (KSeg t) (seg_req S cfg t)) (seq i len).
+Proof.
+  induction len as [|len IH]; intros i H1 HA HF HL; [lia|].
+  cbn [seq walk_asks flat_map]. rewrite (HA i) by lia. destruct len as [|len'].
+  - replace (i + 1 - 1) with i in HL by lia. rewrite HL. reflexivity.
+  - rewrite (HF i) by lia. f_equal. apply (IH (Datatypes.S i)).
+    + lia.
+    + intros t Ht. apply HA. lia.
+    + intros t Ht. apply HF. lia.
+    + rewrite <- HL. f_equal. lia.
+Qed.
+
+(* every needed key, in order, receives its Interests (one more than the number of initial losses) and
+   nothing else is ever asked: no segment is skipped, none is fetched twice *)
+Theorem fetch_asks_in_order S cfg fuel k :
+  wf_scenario S -> disc S = DSeg k -> well_marked (obj S) -> nseg (obj S) < fuel ->
+  (forall k, needed S k -> tolerable_explicit S (retry_times cfg) k) ->
+  interests fuel cfg S =
+    asks_for S cfg KDisc (disc_req S cfg) ++
+    flat_map (fun t => asks_for S cfg (KSeg t) (seg_req S cfg t)) (seq (first_needed S) (nseg (obj S) - first_needed S)).
+Proof.
+  intros HW ED (M1 & M2 & M3) Hf HT. rewrite fetch_asks by assumption.
+  assert (HT' : forall k, needed S k -> result_of S (retry_times cfg) k = KAnswered)
+    by (intros k' Hk; apply tolerable_iff, HT, Hk).
+  unfold expected_asks. rewrite (HT' KDisc I). f_equal.
+  unfold needed, first_needed in *. rewrite ED in *. destruct k as [|k'].
+  - destruct (is_final (obj S) 0) eqn:F0.
+    + assert (nseg (obj S) = 1).
+      { destruct (Nat.eq_dec (nseg (obj S)) 1) as [E|E]; [exact E|]. rewrite M3 in F0 by lia. discriminate. }
+      rewrite H. reflexivity.
+    + assert (2 <= nseg (obj S)).
+      { destruct (Nat.eq_dec (nseg (obj S)) 1) as [E|E]; [|lia]. rewrite E in M2. cbn in M2. congruence. }
+      apply walk_asks_complete.
+      * lia.
+      * intros t Ht. apply (HT' (KSeg t)). lia.
+      * intros t Ht. apply M3. lia.
+      * rewrite <- M2. f_equal. lia.
+  - rewrite Nat.sub_0_r. apply walk_asks_complete.
+    + lia.
+    + intros t Ht. apply (HT' (KSeg t)). lia.
+    + intros t Ht. apply M3. lia.
+    + exact M2.
+Qed.
+
 (* ---- non-vacuity: a concrete scenario satisfying the hypotheses ------------------------------ *)
 
 Definition ex_base : name := [[8; 1; 97]%N].
@@ -140,6 +198,12 @@ Proof.
 Qed.
 Lemma ex_runs : fetch 4 ex_cfg ex_scn = ([[0; 7]; [1; 7]; [2; 7]]%N, Completed).
 Proof. vm_compute. reflexivity. Qed.
+
+Lemma ex_interests :
+  map rq_cbp (interests 4 ex_cfg ex_scn) = [true; true; false; false; false; false; false] /\
+  map (fun q => last (rq_name q) []) (interests 4 ex_cfg ex_scn) =
+    [[8; 1; 97]; [8; 1; 97]; seg_comp 0; seg_comp 0; seg_comp 0; seg_comp 1; seg_comp 2]%N.
+Proof. split; vm_compute; reflexivity. Qed.
 
 (* with retry_times = 2 segment 0 exhausts its attempts: timeout, nothing yielded *)
 Lemma ex_exhausted : exhausted ex_scn 2 (KSeg 0).
